@@ -299,7 +299,24 @@ where
                     Expr::Ident(ident.clone())
                 }
             }
-            JSXElementName::JSXMemberExpr(expr) => jsx_member_to_expr(expr),
+            JSXElementName::JSXMemberExpr(expr) => {
+                let mut object = &expr.obj;
+                while let JSXObject::JSXMemberExpr(member) = object {
+                    object = &member.obj;
+                }
+                if let JSXObject::Ident(ident) = object {
+                    if ident.sym != "this" && Ident::verify_symbol(&ident.sym).is_err() {
+                        // `<a-b.C>`: nothing can be bound to `a-b`, and `a-b.C` is a subtraction
+                        HANDLER.with(|handler| {
+                            handler.span_err(
+                                ident.span,
+                                "The object of a member tag must be an identifier.",
+                            )
+                        });
+                    }
+                }
+                jsx_member_to_expr(expr)
+            }
             // `<svg:rect>`: the tag is the qualified name
             JSXElementName::JSXNamespacedName(name) => Expr::Lit(Lit::Str(quote_str!(format!(
                 "{}:{}",
